@@ -51,12 +51,6 @@ theorem processMessage_hold (env : Env) (m : Msg) (c : Conn) (hI : OutInv c)
       · exact finalizeMessage_hold env m c3 hI3
       · exact Hold.pure hI3 trivial
 
-theorem Hold.bind_modify' {α : Type} {c : Conn} {g : Conn → Conn} {f : Unit → M α}
-    {Q : α → Conn → Prop} (hI : OutInv c) (he : OutEq c (g c)) (hst : (g c).state = c.state)
-    (hsk : (g c).sock = c.sock) (hf : OutInv (g c) → Hold sr U X (g c) (f ()) Q) :
-    Hold sr U X c (M.modify g >>= f) Q :=
-  Hold.bind_modify hI he (fun h => by rw [hsk]; exact hI.sock (by rw [← hst]; exact h)) hf
-
 theorem tickBody_hold (env : Env) (c : Conn) (hI : OutInv c) :
     Hold sr U X c (tickBody env) (fun _ _ => True) := by
   unfold tickBody
